@@ -11,6 +11,7 @@ import (
 	"verifharness/props/c11"
 	"verifharness/props/c12"
 	"verifharness/props/c16"
+	"verifharness/props/ws"
 )
 
 type runner func(tier string, seed int64, outDir string, replay string) (*core.Result, error)
@@ -18,6 +19,9 @@ type runner func(tier string, seed int64, outDir string, replay string) (*core.R
 var drivers = map[string]runner{
 	"C11": c11.Run,
 	"C12": c12.Run,
+	"C13": ws.RunFor("C13"),
+	"C14": ws.RunFor("C14"),
+	"C15": ws.RunFor("C15"),
 	"C16": c16.Run,
 }
 
